@@ -14,6 +14,9 @@ package parse
 //@ pure func suffixOf(q string, orig string) bool = len(q) <= len(orig) && q == orig[len(orig)-len(q):]
 //@ pure func tokOK(t tokenizer) bool = t.errt != nil && suffixOf(t.q, t.errt.qOrig)
 
+// Every recorded error position lies inside the text.
+//@ pure func errOff(e *errorTracker) bool = e.err == nil || (0 <= e.err.Off && e.err.Off <= len(e.qOrig))
+
 // qEnd: the index of the closing quote of the Go string literal that starts at
 // q[0] == '"' — the first '"' at or after pos that is not the character after a
 // backslash — or len(q) if there is none.
@@ -22,9 +25,10 @@ package parse
 
 //@ func (t *tokenizer) quotedWord() (k tok, n tokenizer)
 //@   props C07
-//@   requires t != nil && tokOK(deref(t)) && len(t.q) > 0 && t.q[0] == '"'
+//@   requires t != nil && tokOK(deref(t)) && len(t.q) > 0 && t.q[0] == '"' && errOff(t.errt)
 //@   modifies t.errt
 //@   ensures tokOK(n) && n.errt == t.errt && t.errt.qOrig == old(t.errt.qOrig) && 0 <= k.Off <= len(t.errt.qOrig)
+//@   ensures errOff(t.errt) && (old(t.errt.err) != nil ==> t.errt.err == old(t.errt.err))
 //@   ensures len(n.q) < len(t.q)
 //@   ensures qEnd(t.q, 1) >= len(t.q) ==> k.Kind == 0 && t.errt.err != nil
 //@   ensures qEnd(t.q, 1) < len(t.q) && strconv.Unquote_1(t.q[:qEnd(t.q, 1)+1]) == nil ==>
@@ -61,16 +65,20 @@ package parse
 
 //@ func (t *tokenizer) regexp() (k tok, n tokenizer)
 //@   props C07
-//@   requires t != nil && tokOK(deref(t)) && len(t.q) > 0
+//@   requires t != nil && tokOK(deref(t)) && len(t.q) > 0 && errOff(t.errt)
 //@   modifies t, t.errt
-//@   ensures tokOK(n) && n.errt == old(t.errt) && t.errt.qOrig == old(t.errt.qOrig) && 0 <= k.Off <= len(t.errt.qOrig)
+//@   ensures tokOK(n) && n.errt == old(t.errt) && t.errt == old(t.errt) && t.errt.qOrig == old(t.errt.qOrig) && 0 <= k.Off <= len(t.errt.qOrig)
+//@   ensures errOff(t.errt) && (old(t.errt.err) != nil ==> t.errt.err == old(t.errt.err))
+//@   ensures tokOK(deref(t)) && len(t.q) <= old(len(t.q))
 //@   ensures len(n.q) < old(len(t.q))
 
 //@ func (t *tokenizer) next(allowRegexp bool) (k tok, n tokenizer)
 //@   props C07
-//@   requires t != nil && tokOK(deref(t))
+//@   requires t != nil && tokOK(deref(t)) && errOff(t.errt)
 //@   modifies t, t.errt
-//@   ensures tokOK(n) && n.errt == old(t.errt) && t.errt.qOrig == old(t.errt.qOrig) && 0 <= k.Off <= len(t.errt.qOrig)
+//@   ensures tokOK(n) && n.errt == old(t.errt) && t.errt == old(t.errt) && t.errt.qOrig == old(t.errt.qOrig) && 0 <= k.Off <= len(t.errt.qOrig)
+//@   ensures errOff(t.errt) && (old(t.errt.err) != nil ==> t.errt.err == old(t.errt.err))
+//@   ensures tokOK(deref(t)) && len(t.q) <= old(len(t.q))
 //@   ensures len(n.q) <= old(len(t.q)) && (k.Kind != 0 ==> len(n.q) < old(len(t.q)))
 //@   loop 1:
 //@     invariant tokOK(deref(t)) && t.errt == old(t.errt) && t.errt.qOrig == old(t.errt.qOrig) && deref(t.errt) == old(deref(t.errt)) && len(t.q) <= old(len(t.q)) && unchanged(t)
@@ -89,3 +97,28 @@ package parse
 //@   props C06
 //@   requires q != nil
 //@   ensures q.Regexp == nil ==> (r <==> q.Lit == string(value))
+
+// ---------------------------------------------------------------------------
+// Error recording (C07): the first recorded error is kept and every recorded
+// error position lies inside the text; the tokenizer functions above preserve
+// both facts.  (Contracts for the recursive-descent functions match / andExpr /
+// expr on top of these were written, but their verification conditions — long
+// paths of pointer-receiver calls on local tokenizer values — are beyond the
+// solvers' reach; the parser stays covered by the bounded stand-in.)
+
+//@ func (t *errorTracker) error(q string, msg string)
+//@   requires t != nil && suffixOf(q, t.qOrig) && errOff(t)
+//@   modifies t
+//@   ensures t.qOrig == old(t.qOrig) && t.err != nil && errOff(t)
+//@   ensures old(t.err) != nil ==> t.err == old(t.err)
+
+//@ func (t *tokenizer) error(msg string) (k tok, n tokenizer)
+//@   requires t != nil && tokOK(deref(t)) && errOff(t.errt)
+//@   modifies t.errt
+//@   ensures tokOK(n) && n.errt == t.errt && t.errt.qOrig == old(t.errt.qOrig) && t.errt.err != nil && errOff(t.errt) && k.Kind == 0 && len(n.q) == 0 && 0 <= k.Off <= len(t.errt.qOrig)
+//@   ensures old(t.errt.err) != nil ==> t.errt.err == old(t.errt.err)
+
+//@ func (p *parser) mkMatch(off int, key string, val tok) (f Filter)
+//@   props C07
+//@   requires val.Kind == 'w' || val.Kind == 'q' || val.Kind == 'r'
+//@   ensures f != nil
